@@ -130,7 +130,7 @@ func newSess(ctx *core.Ctx, bin string, wid int, pop string) *sess {
 		ss.dead = true
 		return ss
 	}
-	c.Timeout = 20 * time.Second
+	c.Timeout = 60 * time.Second
 	ss.ctl = c
 	for i := 0; i < 6; i++ {
 		ss.names = append(ss.names, fmt.Sprintf("t%d", i))
@@ -152,6 +152,7 @@ func newSess(ctx *core.Ctx, bin string, wid int, pop string) *sess {
 		return ss
 	}
 	ss.ep = ep
+	ep.DropRedeliveries(true)
 	return ss
 }
 
@@ -1016,40 +1017,71 @@ func (ss *sess) doDrop(fs []*fence) bool {
 	return true
 }
 
-// doExpiry: SET ... EX 1 (judged as a SET), then wait until the object is gone
-// (polling EXISTS; not gone within 15 s = inconclusive, that is C14's property)
-// and judge the `del` like a DEL.
+// doExpiry: SET ... EX 1, then wait until the object is gone (polling EXISTS;
+// not gone within 15 s = inconclusive, that is C14's property) and only then
+// push the markers: the window then holds the SET's messages followed by the
+// expiry's `del` (pushing markers in between would race with the 1 s deadline
+// on a stalled machine). The SET part is judged like any SET, the `del` like a DEL.
 func (ss *sess) doExpiry(fs []*fence, id string, p [2]float64, fields map[string]float64) bool {
-	if !ss.doSet(fs, id, p, fields, 1, "ex") {
-		return false
+	if ss.objs[id] != nil {
+		return true
 	}
-	o := ss.objs[id]
-	deadline := time.Now().Add(15 * time.Second)
-	for {
-		r, err := ss.ctl.Do("EXISTS", ss.key, id)
-		if err != nil {
-			ss.infra("i/o error on EXISTS: %v", err)
-			return false
-		}
-		if r.IsErr() || r.Int == 0 { // "key not found": the collection went away with its last object
-			break
-		}
-		if time.Now().After(deadline) {
-			ss.infra("object with EX 1 still exists after 15 s")
-			return false
-		}
-		time.Sleep(40 * time.Millisecond)
+	nw := &obj{lat: p[0], lon: p[1], fields: map[string]float64{}}
+	cmd := []string{"SET", ss.key, id}
+	var fn []string
+	for k := range fields {
+		fn = append(fn, k)
 	}
-	ss.log = append(ss.log, []string{"#waited-until-expired", id})
-	res, ok := ss.collect(fs)
+	sort.Strings(fn)
+	for _, k := range fn {
+		cmd = append(cmd, "FIELD", k, fmtNum(fields[k]))
+		nw.fields[k] = fields[k]
+	}
+	cmd = append(cmd, "EX", "1", "POINT", f7(p[0]), f7(p[1]))
+	res, ok := ss.run(fs, cmd, func() {
+		deadline := time.Now().Add(15 * time.Second)
+		for {
+			r, err := ss.ctl.Do("EXISTS", ss.key, id)
+			if err != nil {
+				ss.infra("i/o error on EXISTS: %v", err)
+				return
+			}
+			if r.IsErr() || r.Int == 0 { // "key not found": the collection went away with its last object
+				break
+			}
+			if time.Now().After(deadline) {
+				ss.infra("object with EX 1 still exists after 15 s")
+				return
+			}
+			time.Sleep(40 * time.Millisecond)
+		}
+		ss.log = append(ss.log, []string{"#waited-until-expired", id})
+	})
 	if !ok {
 		return false
 	}
-	delete(ss.objs, id)
 	for _, f := range fs {
-		e := f.delExp(id, o)
-		tr := "expiry:" + []string{"out", "band", "in"}[f.sh.class(o.lat, o.lon)+1]
-		ss.judgeCounts(f, judgeCtx{cmd: "expiry", trans: tr, what: "expiry of " + id + " (" + tr + ")"}, []countExp{e}, res[f])
+		var setPart, delPart []notif.Msg
+		for _, m := range res[f] {
+			if m.Str("command") == "del" || len(delPart) > 0 {
+				delPart = append(delPart, m) // anything after the del is judged as an "other" there
+			} else {
+				setPart = append(setPart, m)
+			}
+		}
+		nc := f.sh.class(nw.lat, nw.lon)
+		if nc == 0 {
+			continue
+		}
+		alts := [][]string{detectsFor("set", 0, nc == 1, false, f.detect)}
+		if !f.matches(id) || !f.whereOK(nw) || !f.accepts("set") {
+			alts = [][]string{nil}
+		}
+		tr := transName(0, nc == 1, crossNo)
+		ss.judgeMove(f, judgeCtx{cmd: "set", trans: tr, what: strings.Join(cmd, " ") + " (" + tr + " ex)"}, id, nw, alts, setPart)
+		e := f.delExp(id, nw)
+		tr = "expiry:" + []string{"out", "band", "in"}[nc+1]
+		ss.judgeCounts(f, judgeCtx{cmd: "expiry", trans: tr, what: "expiry of " + id + " (" + tr + ")"}, []countExp{e}, delPart)
 	}
 	ss.ctx.Count("expiries", 1)
 	return true
